@@ -975,7 +975,10 @@ func c04sModel(file string, kind int) *dsl.Namespace {
 		}}
 }
 
-var c04sLabelPool = []string{"v9", "v10", "a", "B"}
+var c04sLabelPool = []string{"v9", "v10", "a", "B", "Current", "class"}
+
+var c04sCppKeyword = map[string]bool{"class": true, "default": true, "new": true, "delete": true, "int": true, "switch": true, "case": true, "namespace": true,
+	"template": true, "typename": true, "union": true, "enum": true, "struct": true, "auto": true, "const": true, "static": true, "void": true, "return": true}
 
 // c04sConc: the text as a concrete string (a symbolic text is forked over the finite domains of its atoms).
 func c04sConc(s string) string { return strings.Join(strings.Split(s, "\n"), "\n") }
@@ -1053,14 +1056,15 @@ func C04CppSchemas(m, kinds, nLabels int) {
 	verifOut("read-before-initialisation", strings.Join(mc.early, "; "))
 	verifAssert("static-initialised-before-use", len(mc.early) == 0)
 
-	// enum class Version: every label exactly once, and Current
+	// enum class Version: one enumerator per label, in declaration order, then Current; pairwise distinct and usable as
+	// C++ identifiers (a label may be `Current` or a C++ keyword: the emitter has to escape it)
 	seen := map[string]int{}
 	for _, it := range mc.enum.items {
 		seen[it]++
 	}
-	enumOk := seen["Current"] == 1 && len(mc.enum.items) == m+1
-	for _, l := range cl {
-		enumOk = enumOk && seen[l] == 1
+	enumOk := len(mc.enum.items) == m+1 && mc.enum.items[m] == "Current"
+	for _, it := range mc.enum.items {
+		enumOk = enumOk && seen[it] == 1 && !c04sCppKeyword[it]
 	}
 	verifAssert("version-enum-lists-each-label-once", enumOk)
 	if !enumOk {
@@ -1070,8 +1074,9 @@ func C04CppSchemas(m, kinds, nLabels int) {
 	for pi, p := range ns.Protocols {
 		w, r := p.Name+"WriterBase", p.Name+"ReaderBase"
 		wantOf := func(version string) string {
+			// enumerators stand for the labels in declaration order
 			for j := range cl {
-				if cl[j] == version {
+				if mc.enum.items[j] == version {
 					return wantOld[pi][j]
 				}
 			}
